@@ -38,6 +38,7 @@ type Exec struct {
 	W           *World
 	Prog        *Program
 	divFacts    map[[2]int]bool
+	bvLeaf      map[[2]int]*smt.Term // bit-vector constants standing for integer leaves of `bvtype` types
 	localFacts  []*smt.Term     // conditions of the enclosing ?: branches while a specification is evaluated
 	unsignedUF  map[string]bool // uninterpreted functions whose result has an unsigned Go type
 	atoms       map[int]bool
